@@ -37,6 +37,8 @@ type Env struct {
 	bound   map[string]bool
 	depth   int
 	pattern *Expr
+	localsOnly bool
+	localOrd   int
 	// at a call site the state in which the callee acquired its lock is unknown to the caller
 	lockedSnap *HeapSnap
 	visited    string // SMT array: keys already visited by the map iteration of the current loop
@@ -350,6 +352,9 @@ func (e *Env) pkgObj(o types.Object) TV {
 func (e *Env) ssaVar(name string) (TV, bool) {
 	f := e.frame
 	for _, p := range f.fn.Params {
+		if e.localsOnly {
+			break // local("name"): a local variable that shadows a parameter of the same name
+		}
 		if p.Name() == name {
 			if v, ok := f.vals[p]; ok {
 				return TV{v, p.Type()}, true
@@ -370,15 +375,23 @@ func (e *Env) ssaVar(name string) (TV, bool) {
 		}
 	}
 	// escaped locals
+	nth := 0
 	for _, b := range f.fn.Blocks {
 		for _, in := range b.Instrs {
 			if a, ok := in.(*ssa.Alloc); ok && a.Comment == name {
+				nth++
+				if e.localOrd > 0 && nth != e.localOrd {
+					continue // local("name", k): the k-th variable of that name in the function
+				}
 				if v, ok := f.vals[a]; ok {
 					el := a.Type().Underlying().(*types.Pointer).Elem()
 					return TV{e.loadAt(v.(PtrV).A, el), el}, true
 				}
 			}
 		}
+	}
+	if e.localOrd > 0 {
+		return TV{}, false // local("name", k) names an addressable variable only
 	}
 	// values named in debug comments (phis)
 	var best ssa.Value
@@ -702,6 +715,41 @@ func (e *Env) call(x *Expr) TV {
 	switch x.Name {
 	case "len":
 		return scInt(e.lenOf(e.eval(args[0])))
+	case "local":
+		// local("name"): the local variable of that name, even when a parameter of the same name exists
+		if args[0].Op != "str" {
+			sfail("local(\"name\")")
+		}
+		if e.frame == nil || e.calleeFn != nil || e.frame.fn != e.x.root {
+			// a callee's postcondition about its own locals says nothing to the caller
+			sfail("local() of another function")
+		}
+		n := *e
+		n.localsOnly = true
+		if len(args) > 1 && args[1].Op == "int" {
+			n.localOrd = int(args[1].Int)
+		}
+		if tv, ok := n.ssaVar(args[0].Str); ok {
+			return tv
+		}
+		if n.localOrd > 0 {
+			// no value on this path: a phantom of the k-th variable's type
+			k := 0
+			for _, b := range e.frame.fn.Blocks {
+				for _, in := range b.Instrs {
+					if a, ok := in.(*ssa.Alloc); ok && a.Comment == args[0].Str {
+						if k++; k == n.localOrd {
+							el := a.Type().Underlying().(*types.Pointer).Elem()
+							return TV{e.st.freshVal(el, "local_"+args[0].Str), el}
+						}
+					}
+				}
+			}
+		}
+		if tv, ok := n.phantomLocal(e.frame.fn, args[0].Str); ok {
+			return tv
+		}
+		sfail("no local variable %s", args[0].Str)
 	case "arrof":
 		// identity of a slice's backing array (a reference)
 		sv, ok := e.eval(args[0]).V.(SliceV)
